@@ -24,7 +24,7 @@ def budget(tier):
 
 @st.composite
 def _case(draw):
-    prof = S.profile(dep_only_file=0.2, max_methods=5, max_services=2, p_http=0.7, p_sig=0.3, p_routing=0.05, p_paged=0.15, p_lro=0.15, p_stream=0.3,
+    prof = S.profile(dep_only_file=0.2, p_host_per_service=0.5, max_methods=5, max_services=2, p_http=0.7, p_sig=0.3, p_routing=0.05, p_paged=0.15, p_lro=0.15, p_stream=0.3,
                      p_dep_io=0.12, p_comment=0.15, max_messages=4, max_fields=5, max_files=2, p_subpackage=0.0, required_fields=True, p_required=0.45,
                      p_oneof=0.6, p_keyword_rpc=0.06, p_resource=0.3, p_path_required=0.5, p_nested=0.3, p_additional=0.0, avoid_client_streaming_unary=True, twin_required_message_fields=True,
                      dep_messages=[x for x in S.DEP_MESSAGES if x != ".google.protobuf.Value"])   # F-sample-dep-message-type
